@@ -2,7 +2,8 @@
 import json
 from vf import core, pipeline, tlaval, tlc
 
-FORMULAS = {'Exclusive', 'NoneAfterBody', 'Rerequest', 'Forgotten', 'TrackedOrAsked', 'NoPanic'}
+FORMULAS = {'Exclusive', 'NoneAfterBody', 'Rerequest', 'Forgotten', 'TrackedOrAsked', 'GroupUniform', 'NoPanic'}
+BULK = 120      # more than the 100 entries TxTracker.Check puts into one getdata
 
 
 def main(argv):
@@ -21,8 +22,29 @@ def main(argv):
         scripts += pipeline.attack_scripts('C14', 'TxRequests')
         for k in range(4 if thorough else 1):
             scripts += pipeline.sim_scripts(chk, 'TxRequests', 'Sim_TxRequests.cfg', num=300, depth=34, seed=chk.seed * 100 + k)
-    sl = [{'id': s['id'], 'steps': s['steps']} for s in scripts]
-    lines, tracefile = pipeline.replay_parallel(chk, 'spynode', 'TestVerifReplayTxRequests', {'nt': 2, 'nc': 3}, sl, nproc=12)
+    sl = [{'id': s['id'], 'steps': s['steps']} for s in scripts if not s.get('bulk')]
+    lines = []
+    if sl:
+        lines, tracefile = pipeline.replay_parallel(chk, 'spynode', 'TestVerifReplayTxRequests', {'nt': 2, 'nc': 3}, sl, nproc=12)
+    # the same histories at the code's scale: every txid of the specification stands for a group of BULK real transactions
+    # (inventories, bodies and blocks carry the whole group); all members must be treated like the one txid of the specification
+    if chk.replay:
+        bl = [{'id': s['id'], 'steps': s['steps']} for s in scripts if s.get('bulk')]
+    else:
+        # histories in which a periodic check re-requests something come first: that is where batching happens
+        rereq, prev = set(), None
+        for ln in lines:
+            if prev is not None and prev['tr'] == ln['tr'] and ln['act']['a'] == 'Check' and len(ln['st']['asked']) > len(prev['st']['asked']):
+                rereq.add(ln['tr'])
+            prev = ln
+        pick = [s for s in scripts if s['id'] in rereq] + [s for s in scripts if s['id'] not in rereq]
+        chk.log('%d of %d histories contain a re-request by a periodic check' % (len(rereq), len(scripts)))
+        bl = [{'id': 'bulk-' + s['id'], 'steps': s['steps']} for s in pick[:(160 if thorough else 50)]]
+        scripts += [dict(b, bulk=BULK) for b in bl]
+    if bl:
+        lines2, _ = pipeline.replay_parallel(chk, 'spynode', 'TestVerifReplayTxRequests', {'nt': 2, 'nc': 3, 'bulk': BULK}, bl, nproc=12)
+        chk.log('replayed %d scripts with groups of %d transactions per txid: %d trace lines' % (len(bl), BULK, len(lines2)))
+        lines += lines2
     nasks = sum(len(l['st']['asked']) for l in lines if l is lines[-1] or True) and sum(len(lines[i]['st']['asked']) for i in range(len(lines)) if i + 1 == len(lines) or lines[i + 1]['tr'] != lines[i]['tr'])
     chk.log('replayed %d scripts on the real handlers/trackers/mempool: %d trace lines, %d getdata requests observed' % (len(scripts), len(lines), nasks))
     bad = pipeline.judge_parallel(chk, 'TxRequests', lines, nproc=6)
@@ -39,7 +61,7 @@ def main(argv):
         chk.violation(f, 'trace %s step %d after %s%s: asked=%s trackers=%s reqAt=%s body=%s clock=%s' % (
             ln['tr'], l - first, ln['act'], (' [' + ln['skip'] + ']') if ln['skip'] else '', [(a['c'], a['t'], a['at'], a['had']) for a in ln['st']['asked']],
             ln['st']['trk'], ln['st']['reqAt'], ln['st']['body'], ln['st']['clock']),
-            {'script': {'id': ln['tr'], 'steps': ids[ln['tr']]['steps'][:l - first]}}, {'line': ln})
+            {'script': {'id': ln['tr'], 'steps': ids[ln['tr']]['steps'][:l - first], 'bulk': ids[ln['tr']].get('bulk', 0)}}, {'line': ln})
     drift = sorted({lines[l - 1]['tr'] for l in rej})
     if drift:
         chk.notes.append('conformance drift: %d rejected lines (traces %s)' % (len(rej), drift[:5]))
